@@ -33,13 +33,15 @@
 (***************************************************************************)
 EXTENDS Naturals, Sequences, FiniteSets, TLC
 
-CONSTANTS MaxParams,      \* longest signature
-          MaxPos,         \* most positional arguments of a call
-          MaxKw,          \* most keyword arguments of a call
-          MaxHaz,         \* most hazardous names in one signature
+CONSTANTS MaxParams,      \* longest signature with ordinary names only
+          MaxPos,         \* most positional arguments of a call of such a signature
+          MaxKw,          \* most keyword arguments of a call of such a signature
           Hazard,         \* hazardous parameter names
+          MaxHaz,         \* most hazardous names in one signature
+          HazParams,      \* longest signature with hazardous names
+          HazPos, HazKw,  \* bounds of the calls of such a signature
           Extra,          \* keyword names used in calls besides the parameters' names
-          FullOptParams,  \* signatures up to this length are combined with EVERY option
+          FullOptParams,  \* signatures up to this length (hazardous name: only self) are combined with EVERY option
           FullOptKw       \* ... for calls with at most this many keywords
 
 VARIABLES cs,    \* the case: [sig, call, opt]   (never changes)
@@ -65,18 +67,23 @@ ValidShape(s) ==
   /\ \A i \in DOMAIN s : s[i][1] \in {"VP", "VK"} => ~s[i][2]
 Shapes(n) == {s \in [1..n -> Kinds \X BOOLEAN] : ValidShape(s)}
 
+\* a naming gives every position its ordinary name ("-") or a hazardous one; hazardous names are distinct
 Namings(n) == {f \in [1..n -> Hazard \cup {"-"}] :
                  /\ \A i, j \in 1..n : (i # j /\ f[i] # "-") => f[i] # f[j]
-                 /\ Cardinality({i \in 1..n : f[i] # "-"}) <= MaxHaz}
+                 /\ Cardinality({i \in 1..n : f[i] # "-"}) <= MaxHaz
+                 /\ (\E i \in 1..n : f[i] # "-") => n <= HazParams}
+MaxN == IF MaxParams < HazParams THEN HazParams ELSE MaxParams
 Sigs == UNION {{[i \in 1..n |-> [k |-> s[i][1], d |-> s[i][2], n |-> IF f[i] = "-" THEN Ord[i] ELSE f[i]]] :
-                   s \in Shapes(n), f \in Namings(n)} : n \in 0..MaxParams}
+                   s \in Shapes(n), f \in {g \in Namings(n) : (\A i \in 1..n : g[i] = "-") => n <= MaxParams}} : n \in 0..MaxN}
+IsHaz(sig) == \E i \in DOMAIN sig : sig[i].n \in Hazard
 
 ParamNames(sig) == {sig[i].n : i \in DOMAIN sig}
 MethOK(sig, np) == Len(sig) >= 1 /\ sig[1].n = "self" /\ sig[1].k \in {"PO", "PK"} /\ np >= 1
 Calls(sig) == {[np |-> p, kw |-> K, meth |-> m] :
-                 p \in 0..MaxPos,
-                 K \in {S \in SUBSET (ParamNames(sig) \cup Extra) : Cardinality(S) <= MaxKw},
+                 p \in 0..(IF IsHaz(sig) THEN HazPos ELSE MaxPos),
+                 K \in {S \in SUBSET (ParamNames(sig) \cup Extra) : Cardinality(S) <= (IF IsHaz(sig) THEN HazKw ELSE MaxKw)},
                  m \in BOOLEAN}
+NullCall(c) == c.np = 0 /\ c.kw = {}
 
 NoIa == [given |-> FALSE, names |-> {}]
 Ia(S) == [given |-> TRUE, names |-> S]
@@ -84,17 +91,19 @@ DefaultOpt == [ia |-> NoIa, ir |-> TRUE, at |-> FALSE, fx |-> "ret", bare |-> TR
 OptOK(o) == o.bare => (o.ia = NoIa /\ o.ir /\ ~o.at)
 OptsFull(sig) == {o \in [ia : {NoIa} \cup {Ia(S) : S \in SUBSET (ParamNames(sig) \cup {"bad"})},
                          ir : BOOLEAN, at : BOOLEAN, fx : {"ret", "raise"}, bare : BOOLEAN] : OptOK(o)}
-\* a covering handful for the big signatures: every option value occurs, include_args = one name / all names / a bad name
+\* a refused decoration does not depend on the call: explored with the null call only
+Refused(sig, o) == o.ia.given /\ ~(o.ia.names \subseteq ParamNames(sig))
+\* a covering handful for the other signatures: every option value occurs; include_args = all names / one name / a bad name
 OptsSmall(sig) ==
   LET last == IF Len(sig) = 0 THEN {} ELSE {sig[Len(sig)].n}
   IN {DefaultOpt,
-      [ia |-> NoIa, ir |-> FALSE, at |-> TRUE, fx |-> "ret", bare |-> FALSE],
-      [ia |-> NoIa, ir |-> TRUE, at |-> FALSE, fx |-> "raise", bare |-> FALSE],
-      [ia |-> Ia(last), ir |-> TRUE, at |-> TRUE, fx |-> "ret", bare |-> FALSE],
-      [ia |-> Ia(ParamNames(sig)), ir |-> FALSE, at |-> FALSE, fx |-> "raise", bare |-> FALSE],
+      [ia |-> Ia(ParamNames(sig) \ {"self"}), ir |-> FALSE, at |-> TRUE, fx |-> "ret", bare |-> FALSE],
+      [ia |-> Ia(last), ir |-> TRUE, at |-> FALSE, fx |-> "raise", bare |-> FALSE],
+      [ia |-> NoIa, ir |-> TRUE, at |-> TRUE, fx |-> "raise", bare |-> FALSE],
       [ia |-> Ia(last \cup {"bad"}), ir |-> TRUE, at |-> FALSE, fx |-> "ret", bare |-> FALSE]}
-Opts(sig, call) == IF Len(sig) <= FullOptParams /\ Cardinality(call.kw) <= FullOptKw
-                   THEN OptsFull(sig) ELSE OptsSmall(sig)
+FullOpt(sig, call) == /\ Len(sig) <= FullOptParams /\ Cardinality(call.kw) <= FullOptKw
+                      /\ \A i \in DOMAIN sig : sig[i].n \in Hazard => sig[i].n = "self"
+OptsOf(sig, call) == {o \in (IF FullOpt(sig, call) THEN OptsFull(sig) ELSE OptsSmall(sig)) : Refused(sig, o) => NullCall(call)}
 
 -----------------------------------------------------------------------------
 (* Part 1.  Python's binding rule.                                         *)
@@ -138,6 +147,14 @@ Bind(sig, c) ==
                        ELSE IF FilledByKeyword(sig, c, i) THEN V("kw", 0, 0, {})
                        ELSE V("def", 0, 0, {})])
 
+\* the options a call is combined with: every option set for a call that binds; an unbindable call (whose outcome does not
+\* depend on the options) with the bare decorator and one factory form, or only the former if it is wrong in several ways
+Opts(sig, call) ==
+  LET k == Cardinality(Reasons(sig, call))
+  IN IF k = 0 THEN OptsOf(sig, call)
+     ELSE IF k = 1 THEN {DefaultOpt, [ia |-> Ia(ParamNames(sig) \ {"self"}), ir |-> FALSE, at |-> TRUE, fx |-> "ret", bare |-> FALSE]}
+     ELSE {DefaultOpt}
+
 \* --- (b) the sequential slot algorithm of the language reference
 RECURSIVE PlacePos(_, _, _, _)
 PlacePos(sig, r, p, np) ==
@@ -177,6 +194,11 @@ Logged(sig, o) == {sig[i].n : i \in {j \in DOMAIN sig : /\ sig[j].n # "self"
                                                         /\ (o.ia.given => sig[j].n \in o.ia.names)}}
 ActionType(c, o) == IF o.at THEN "given" ELSE IF c.meth THEN "module.Class.name" ELSE "module.name"
 Ev(e, what) == [e |-> e, what |-> what]
+\* what the wrapper shows around a call that binds (functions of the case only)
+StartEv(c) == [e |-> "start", type |-> ActionType(c.call, c.opt), fields |-> Logged(c.sig, c.opt)]
+EndEv(c)   == IF c.opt.fx = "ret" THEN [e |-> "end", status |-> "succeeded", result |-> c.opt.ir]     \* result logged unless include_result=False
+              ELSE [e |-> "end", status |-> "failed", result |-> FALSE]
+RetEv(c)   == IF c.opt.fx = "ret" THEN Ev("return", "R") ELSE Ev("raise", "X")                          \* the SAME object R / X
 
 Init == /\ \E s \in Sigs : \E c \in Calls(s) :
              /\ c.meth => MethOK(s, c.np)
@@ -186,7 +208,7 @@ Init == /\ \E s \in Sigs : \E c \in Calls(s) :
 
 Decorate ==
   /\ pc = "decorate"
-  /\ IF cs.opt.ia.given /\ ~(cs.opt.ia.names \subseteq ParamNames(cs.sig))
+  /\ IF Refused(cs.sig, cs.opt)
      THEN /\ obs' = <<Ev("raise", "ValueError")>>          \* include_args names a non-parameter: refused at decoration
           /\ pc' = "done"
      ELSE /\ obs' = <<[e |-> "decorated", type |-> ActionType(cs.call, cs.opt), keeps |-> {"name", "doc", "signature"}]>>
@@ -202,7 +224,7 @@ Invoke ==
 
 Start ==
   /\ pc = "start"
-  /\ obs' = Append(obs, [e |-> "start", type |-> ActionType(cs.call, cs.opt), fields |-> Logged(cs.sig, cs.opt)])
+  /\ obs' = Append(obs, StartEv(cs))
   /\ pc' = "call"
   /\ UNCHANGED cs
 
@@ -214,15 +236,13 @@ Call ==
 
 End ==
   /\ pc = "end"
-  /\ obs' = Append(obs, IF cs.opt.fx = "ret"
-                        THEN [e |-> "end", status |-> "succeeded", result |-> cs.opt.ir]
-                        ELSE [e |-> "end", status |-> "failed", result |-> FALSE])
+  /\ obs' = Append(obs, EndEv(cs))
   /\ pc' = "return"
   /\ UNCHANGED cs
 
 Return ==
   /\ pc = "return"
-  /\ obs' = Append(obs, IF cs.opt.fx = "ret" THEN Ev("return", "R") ELSE Ev("raise", "X"))   \* the SAME object R / X
+  /\ obs' = Append(obs, RetEv(cs))
   /\ pc' = "done"
   /\ UNCHANGED cs
 
@@ -233,9 +253,9 @@ Spec == Init /\ [][Next]_vars
 (* Invariants: properties of the rules, checked over the whole domain.     *)
 B == Bind(cs.sig, cs.call)
 \* the two formulations of the binding rule agree
-BindAgree == pc = "decorate" => BindSeq(cs.sig, cs.call) = B
+BindAgree == pc = "invoke" => BindSeq(cs.sig, cs.call) = B
 \* a binding neither loses, duplicates nor invents an argument, keeps positional order, uses defaults only where they exist
-Conservation == (pc = "decorate" /\ B.ok) =>
+Conservation == (pc = "invoke" /\ B.ok) =>
   LET sig == cs.sig
       c == cs.call
       b == B.b
@@ -253,11 +273,12 @@ Conservation == (pc = "decorate" /\ B.ok) =>
                             /\ b[i].t = "vp" => (b[i].hi < b[i].lo \/ b[i].hi <= c.np)        \* empty, or arguments that exist
                             /\ b[i].t = "vk" => b[i].ks \subseteq c.kw
 \* a rejected call has a reason, an accepted one has none
-Rejection == pc = "decorate" => (B.ok <=> Reasons(cs.sig, cs.call) = {})
+Rejection == pc = "invoke" => (B.ok <=> Reasons(cs.sig, cs.call) = {})
 \* making positional-only parameters nameable changes the outcome only for calls that name one (scope of F4b / F4c)
-DeviationScope == (pc = "decorate" /\ ~NamesPosOnly(cs.sig, cs.call)) => Bind(NoSlash(cs.sig), cs.call) = B
+DeviationScope == (pc = "invoke" /\ ~NamesPosOnly(cs.sig, cs.call)) => Bind(NoSlash(cs.sig), cs.call) = B
 \* the wrapper: what is logged
-LoggedOK == LET L == Logged(cs.sig, cs.opt)
+LoggedOK == pc = "start" =>
+            LET L == Logged(cs.sig, cs.opt)
             IN /\ "self" \notin L
                /\ L \subseteq ParamNames(cs.sig)
                /\ cs.opt.ia.given => L = (cs.opt.ia.names \cap ParamNames(cs.sig)) \ {"self"}
@@ -289,9 +310,11 @@ Emit == pc = "done" =>
                     THEN LET D == Bind(NoSlash(cs.sig), cs.call)
                          IN IF D.ok THEN <<[i \in DOMAIN D.b |-> <<D.b[i].t, D.b[i].lo, D.b[i].hi, D.b[i].ks>>]>> ELSE <<"TypeError">>
                     ELSE <<"-">>,
-                    [i \in DOMAIN obs |-> IF obs[i].e = "call" THEN [e |-> "call"] ELSE obs[i]]>>))
+                    [i \in DOMAIN obs |-> IF obs[i].e = "call" THEN [e |-> "call"] ELSE obs[i]],
+                    \* what a binding call shows (used by the harness for the deviation model when the spec says TypeError)
+                    <<StartEv(cs), EndEv(cs), RetEv(cs)>>>>))
 
 \* deliberately wrong variants, which TLC must reject (vacuity guards; MC_LogCall_Broken1.cfg / MC_LogCall_Broken2.cfg)
-BrokenNoDupCheck  == pc = "decorate" => BindSeqV(cs.sig, cs.call, FALSE) = B     \* a keyword may overwrite a filled slot
-BrokenNoDeviation == pc = "decorate" => Bind(NoSlash(cs.sig), cs.call) = B       \* "dropping the / marker is harmless"
+BrokenNoDupCheck  == pc = "invoke" => BindSeqV(cs.sig, cs.call, FALSE) = B     \* a keyword may overwrite a filled slot
+BrokenNoDeviation == pc = "invoke" => Bind(NoSlash(cs.sig), cs.call) = B       \* "dropping the / marker is harmless"
 =============================================================================
